@@ -252,6 +252,12 @@ def _catalogue():
     add("D13i", {"s": T([("any", ["x", "y"], ["a", "b"])]), "a": T([("any", ["x"], ["j"])]),
                  "b": T([("any", ["x", "z"], ["j"])]), "j": T(join="all")}, vars={"x": "init"},
         output=["x", "y", "z"])
+    # D13d independent publishes of one variable, one of them two hops before the join
+    add("D13d", {"s": T([("any", [], ["a1", "b1"])]), "a1": T([("any", ["x"], ["a2"])]), "a2": T([("any", [], ["j"])]),
+                 "b1": T([("any", ["x"], ["j"])]), "j": T([("any", [], ["z"])], join="all"), "z": T()}, vars={"x": "init"}, output=["x"])
+    # D20 two independent start branches of different length, each publishing its own output variable
+    add("D20", {"A": T([("ok", ["a"], ["A2"])]), "A2": T(), "B": T([("ok", ["b"], ["B1"])]), "B1": T([("ok", [], ["B2"])]), "B2": T()},
+        output=["a", "b"])
     # D06p split routes with publishes
     add("D06p", {"s": T([("any", ["x"], ["a", "b"])]), "a": T([("any", ["y"], ["m"])]),
                  "b": T([("any", ["x"], ["m"])]), "m": T([("any", ["w"], ["n"])]), "n": T()},
@@ -279,3 +285,37 @@ CATALOGUE = _catalogue()
 
 def get(did):
     return CATALOGUE[did]
+
+
+def items_def(n, conc=None, conc_expr=False, sibling=False):
+    """With-items task over n items with the given concurrency (literal, or taken from the input k)."""
+    did = "W[n=%d,k=%s%s%s]" % (n, conc, ",expr" if conc_expr else "", ",sib" if sibling else "")
+    if did in CATALOGUE:
+        return CATALOGUE[did]
+    inputs = {"xs": [10 + i for i in range(n)]}
+    decl = ["xs"]
+    c = conc
+    if conc_expr:
+        inputs["k"] = conc
+        decl.append("k")
+        c = "<% ctx().k %>"
+    tasks = {"w": T([("ok", ["out"], ["z"])], items=n, conc=c), "z": T()}
+    if sibling:
+        tasks = {"s": T([("any", [], ["w", "a"])]), "w": T([("ok", ["out"], ["z"])], items=n, conc=c), "z": T(), "a": T()}
+    wf = WfDef(did, tasks, inputs=inputs, input_decl=decl, output=["out"])
+    CATALOGUE[did] = wf
+    return wf
+
+
+def join_def(need, branches=3):
+    """s forks into `branches` tasks, each transitions into j when it succeeded with result bit c0."""
+    did = "J[%s/%d]" % (need, branches)
+    if did in CATALOGUE:
+        return CATALOGUE[did]
+    names = ["p%d" % i for i in range(branches)]
+    tasks = {"s": T([("any", [], names)]), "j": T([("any", [], ["z"])], join=need), "z": T()}
+    for nme in names:
+        tasks[nme] = T([("c0", [], ["j"])])
+    wf = WfDef(did, tasks)
+    CATALOGUE[did] = wf
+    return wf
